@@ -25,7 +25,7 @@ PENDING = {}
 
 CHECKS = {
  "C03": dict(engine="curve-sim", cat="exploration", ref="DESIGN.md 4.1",
-   text="seeded search over operation and fault sequences (3-25 ops per history, optimiser/model/preprocessing faults injected inside calls) on one curve object; after every op the object is compared bit for bit with a freshly built curve that applies only the stored settings; a repeated fit (fit_model() and the identical call again) must make zero optimiser calls and change nothing; module-level default tables must be untouched; a sample of runs is re-executed in a fresh interpreter (no earlier objects, other hash seed) and must give the same event log. A directed prefix rotates over every setting key and route per batch. Sampling, not enumeration: a clean batch is evidence with the stated reach.",
+   text="seeded search over operation and fault sequences (3-25 ops per history, optimiser/model/preprocessing faults injected inside calls) on one curve object; after every op the object is compared bit for bit with a freshly built curve that applies only the stored settings; a repeated fit (fit_model() and the identical call again) must make zero optimiser calls and change nothing; module-level default tables must be untouched; a sample of runs is re-executed in a fresh interpreter (no earlier objects, other hash seed) and must give the same event log. A directed prefix rotates over every setting key and route per batch; a directed tail (one run in thirteen) asks for the same steps in two legal orders, each followed by a fit. Sampling, not enumeration: a clean batch is evidence with the stated reach.",
    note="oracle recomputes with nanite's own code (detects history/cache/alias dependence, not a formula wrong the same way from scratch); caller is well behaved (fresh copies); lmfit's default evaluation budget is capped at the optimiser seam and its abort-path use-after-free is neutralised there"),
  "C06": dict(engine="curve-sim", cat="exploration", ref="DESIGN.md 4.2",
    text="seeded histories of valid, invalid and transiently failing preprocessing requests through all four request routes, interleaved with fits and edits; every accepted request is compared bit for bit with a fresh curve given the same steps/options, rejected requests must not be remembered, raw data must never change, and for flagged requests a fault is placed at EVERY seam call of that request (fail, check, retry, check). Other curves are preprocessed in between and one run in eight is compared with a fresh-interpreter twin that skips them (state leaking between objects of one process). Three directed openings chosen by the run index (file with its own tip position; slope-correction defaults spelled out; recorded curves on which segment discovery gives up, processed by give-up and drift pipelines in turn). Exploration over histories; complete over fault positions of the flagged requests.",
